@@ -9,6 +9,10 @@ package main
 //	C13M <codec> ; <texts>      through the Mux, one goroutine: a gzip client-streaming upload read to EOF by
 //	                            a conforming handler, then request A whose handler lets request B start
 //	                            before reading its own body; obs = what A's handler received
+//	C13B <variant> ; <obs>      through the Mux, one goroutine, in-process gRPC with Grpc-Encoding gzip: a call whose
+//	                            frame inflates some bytes and then fails (crc: wrong CRC-32; cut: truncated
+//	                            stream; tail: garbage after a valid stream) or a clean call (ok), then a second
+//	                            call; obs = what the second call's handler received and what its client decoded
 //	C13S <kind> <workers> <iters> <seed> ; ok <n> | leak <n> <sample>
 //	                            concurrent stress on a loopback server, per-request echo equality
 //
@@ -219,6 +223,7 @@ type c13Env struct {
 	bad     atomic.Int64 // messages a handler saw that are not well-formed
 	badMu   sync.Mutex
 	badText string
+	last    proto.Message // the request the most recent unary handler saw (C13B, one goroutine)
 }
 
 var c13env *c13Env
@@ -287,6 +292,9 @@ func c13Setup() *c13Env {
 			}
 			t := text(req)
 			e.seen(t)
+			e.badMu.Lock()
+			e.last = proto.Clone(req)
+			e.badMu.Unlock()
 			return mk(out, t), nil
 		},
 		Stream: func(method string, in, out protoreflect.MessageDescriptor, ss grpc.ServerStream) error {
@@ -433,6 +441,100 @@ func c13RunM(o *out, input string) {
 		case got == a:
 			obs = "own"
 		case strings.Contains(got, "id=B;"):
+			obs = "other-request"
+		default:
+			obs = "lost:" + hx([]byte(got))[1:]
+		}
+	}()
+	o.emit(input, obs)
+}
+
+// ---------- C13B ----------
+
+// one in-process unary gRPC call with a gzip-compressed frame; returns (what the reply decodes to, grpc-status)
+func c13InProcGrpc(e *c13Env, payload []byte) (string, string) {
+	body := c08Frame(1, uint32(len(payload)), payload)
+	r := httptest.NewRequest("POST", "/verif.c13.Iso/Echo", bytes.NewReader(body))
+	r.ProtoMajor, r.ProtoMinor = 2, 0
+	r.Header.Set("Content-Type", "application/grpc+proto")
+	r.Header.Set("Grpc-Encoding", "gzip")
+	r.Header.Set("Grpc-Accept-Encoding", "gzip")
+	r.Header.Set("Te", "trailers")
+	rec := httptest.NewRecorder()
+	e.mux.ServeHTTP(rec, r)
+	st := rec.Result().Trailer.Get("Grpc-Status")
+	if st == "" {
+		st = rec.Header().Get("Grpc-Status")
+	}
+	b := rec.Body.Bytes()
+	if len(b) < 5 {
+		return "", st
+	}
+	n := int(binary.BigEndian.Uint32(b[1:5]))
+	if len(b) < 5+n {
+		return "short-frame", st
+	}
+	msg := b[5 : 5+n]
+	if b[0] == 1 {
+		zr, err := gzip.NewReader(bytes.NewReader(msg))
+		if err != nil {
+			return "reply-not-gzip", st
+		}
+		msg, err = io.ReadAll(zr)
+		if err != nil {
+			return "reply-gzip-broken", st
+		}
+	}
+	var out testpb.Message
+	if err := proto.Unmarshal(msg, &out); err != nil {
+		return "reply-undecodable", st
+	}
+	return out.Text, st
+}
+
+func c13RunB(o *out, input string) {
+	f := strings.Fields(input)
+	variant := f[1]
+	e := c13Setup()
+	old := runtime.GOMAXPROCS(1)
+	defer runtime.GOMAXPROCS(old)
+	obs := "panic"
+	func() {
+		defer func() { recover() }()
+		a, b := c13Text("A", 900), c13Text("B", 37)
+		// A sets fields B leaves alone: bytes of A in front of B's would survive the merge
+		pa, _ := proto.Marshal(&testpb.Message{Text: a, UserId: "user-of-A", MessageId: "id-of-A"})
+		mb := &testpb.Message{Text: b}
+		pb, _ := proto.Marshal(mb)
+		za := c13Gz(pa)
+		switch variant {
+		case "crc":
+			za[len(za)-5] ^= 0x55 // CRC-32 in the gzip trailer
+		case "cut":
+			za = za[:len(za)-12]
+		case "tail":
+			za = append(za, 0x1f, 0x8b, 0xff, 0xff)
+		}
+		_, st1 := c13InProcGrpc(e, za)
+		if variant == "ok" && st1 != "0" {
+			obs = "first-call-failed:" + st1
+			return
+		}
+		e.last = nil
+		got, st2 := c13InProcGrpc(e, c13Gz(pb))
+		var saw testpb.Message
+		if e.last != nil {
+			lb, _ := proto.Marshal(e.last)
+			proto.Unmarshal(lb, &saw)
+		}
+		switch {
+		case st2 != "0":
+			obs = "second-call-failed:" + st2 + ":" + hx([]byte(got))[1:]
+		case e.last == nil || !proto.Equal(&saw, mb):
+			obs = "handler-saw-other:" + hx([]byte(saw.String()))[1:]
+		case got == b:
+			obs = "own"
+		case strings.Contains(got, "id=A;"):
 			obs = "other-request"
 		default:
 			obs = "lost:" + hx([]byte(got))[1:]
@@ -711,6 +813,8 @@ func c13Run(o *out, input string) {
 		c13RunG(o, input)
 	case "C13M":
 		c13RunM(o, input)
+	case "C13B":
+		c13RunB(o, input)
 	case "C13S":
 		var seed uint64
 		fmt.Sscanf(f[4], "%d", &seed)
@@ -744,6 +848,10 @@ func c13Gen(o *out, r *rng, tier string) {
 	for _, c := range []string{"json", "proto"} {
 		o.count("mux-nested/" + c)
 		c13RunM(o, "C13M "+c)
+	}
+	for _, v := range []string{"ok", "crc", "cut", "tail"} {
+		o.count("grpc-gzip-sequence/" + v)
+		c13RunB(o, "C13B "+v)
 	}
 	c13GenG(o, r, n)
 	c13Stress(o, "mix", w, it, seed)
